@@ -111,6 +111,29 @@ def fail_then_new(late_sync: bool, first_sync: bool):
     h.end()
 
 
+@h.lemma(timeout=300, thorough_timeout=900, funcs=FUNCS, reach=("end", "arrived_during_failure_path", "arrived_after"),
+         bounds="update 0 (async or sync) is sent alone and its API call fails; a second caller (sync or async) ARRIVES at any of the first 30 scheduling "
+                "steps - i.e. at every yield point of the consumer's failure path (before/inside/after the drain, before the failed flag is set) - and runs "
+                "until it blocks; afterwards every thread runs to completion or blocks")
+def fail_late_arrival(k: int, first_sync: bool, late_sync: bool):
+    """
+    pre: 1 <= k <= 30
+    post: True
+    """
+    w = World(3, 3, 0.2, Client(fail_at=1), pre_step=[k], pre_to=[2])
+    w.producer("p0", Upd(0, 1), first_sync)
+    w.producer("p1", Upd(1, 1), late_sync, arrives_at=k)
+    w.run()
+    if "p1" not in w.arrived:
+        return   # the run was over before step k: no late arrival on this path
+    calls = len(w.client.calls)
+    if w.sched.k == 1 and calls >= 1 and "p1" in w.outcomes and w.outcomes["p1"][0] == "err":
+        h.reach("arrived_during_failure_path")
+    check_failstop(w, 2, [first_sync, late_sync], 1)
+    h.reach("arrived_after")
+    h.end()
+
+
 def _mk_fail_race(pto):
     def lem(sp: int, pstep: int, first_big: bool):
         """
